@@ -3,7 +3,7 @@ import ast
 import itertools
 
 from sa.astutil import (norm, guards_of, walk_no_nested, always_exits, parent, enclosing, stmt_of,
-                        names_in, qualname)
+                        names_in, qualname, subst, Guard)
 from sa.c18_util import BV, SB, SymMem, Interp, Closure, strip_doc, decorators
 from sa.errors import AnalysisError
 from sa.minieval import Raised
@@ -265,76 +265,85 @@ def rule_amo_table(repo):
         names = [n for n in amos if types[n] == code]
         if not names:
             r.bad(fm, '<module>', f'AMO_FUNS[{norm(k)}]', f"key {norm(k)} (code {code}) is not an AMO_* message type", k.lineno)
-    # MagicMemoryFL.amo
+    # MagicMemoryFL.amo: the method is evaluated with recording stand-ins for read / write / the AMO functions
     f = fm.get_func('MagicMemoryFL.amo')
     params = [a.arg for a in f.args.args]
-    if len(params) != 5:
+    if len(params) != 5 or f.args.vararg or f.args.kwarg:
         raise AnalysisError("MagicMemoryFL.amo: expected (s, amo, addr, nbytes, data)")
-    me, p_amo, p_addr, p_n, p_data = params
-    body = strip_doc(f.body)
-    reads = [n for n in walk_no_nested(f) if isinstance(n, ast.Call) and norm(n.func) in (f'{me}.read', 'read_bytearray_bits')]
-    writes = [n for n in walk_no_nested(f) if isinstance(n, ast.Call) and norm(n.func) in (f'{me}.write', 'write_bytearray_bits')]
-    rets = [n for n in walk_no_nested(f) if isinstance(n, ast.Return)]
+    me = params[0]
     q = 'MagicMemoryFL.amo'
-    if len(reads) < 1 or len(writes) != 1 or len(rets) != 1 or any(isinstance(n, (ast.If, ast.For, ast.While, ast.Try))
-                                                                    for n in walk_no_nested(f)):
-        raise AnalysisError("MagicMemoryFL.amo: expected straight-line code with one read, one write, one return")
-    reads.sort(key=lambda n: body.index(stmt_of(n)) if stmt_of(n) in body else len(body))
-    rd, wr, ret = reads[0], writes[0], rets[0]
-    for extra in reads[1:]:
-        r.bad(fm, q, norm(stmt_of(extra)), "the memory is read a second time inside one atomic operation: a value read after the "
-              "store is the NEW value, not the old one the requester must get", extra.lineno)
+    problems = {}
+    for name in amos:
+        code = types[name]
+        for nb in (1, 2, 4, 8):
+            ev_log = []
+            DATA = ('request data',)
 
-    def geom(call):
-        a = [norm(x) for x in call.args]
-        if norm(call.func).endswith('_bytearray_bits'):
-            a = a[1:]
-        return a
-    rd_stmt, wr_stmt = stmt_of(rd), stmt_of(wr)
-    old = None
-    if isinstance(rd_stmt, ast.Assign) and rd_stmt.value is rd and len(rd_stmt.targets) == 1 and isinstance(rd_stmt.targets[0], ast.Name):
-        old = rd_stmt.targets[0].id
-    if old is None:
-        raise AnalysisError("MagicMemoryFL.amo: the value read is not bound to a local name")
-    if geom(rd)[:2] == [p_addr, p_n]:
-        r.ok(fm, q, norm(rd_stmt))
-    else:
-        r.bad(fm, q, norm(rd_stmt), f"the old value must be read from ({p_addr}, {p_n})", rd.lineno)
-    if body.index(rd_stmt) < body.index(wr_stmt):
-        r.ok(fm, q, 'read precedes write')
-    else:
-        r.bad(fm, q, 'write precedes read', "the value returned/combined is read after the store: the AMO returns the new "
-              "value and applies the operation to it twice", wr.lineno)
-    wa = wr.args[1:] if norm(wr.func).endswith('_bytearray_bits') else wr.args
-    if len(wa) != 3:
-        raise AnalysisError("MagicMemoryFL.amo: write call with unexpected arity")
-    if [norm(x) for x in wa[:2]] == [p_addr, p_n]:
-        r.ok(fm, q, f'write geometry ({p_addr}, {p_n})')
-    else:
-        r.bad(fm, q, norm(wr), f"the result must be written back to the bytes read: ({p_addr}, {p_n})", wr.lineno)
-    val = wa[2]
-    if isinstance(val, ast.Name):
-        prev = [s for s in body[:body.index(wr_stmt)] if isinstance(s, ast.Assign) and norm(s.targets[0]) == val.id]
-        if prev:
-            val = prev[-1].value
-    good = (isinstance(val, ast.Call) and isinstance(val.func, ast.Subscript) and norm(val.func.value) == 'AMO_FUNS'
-            and not val.keywords)
-    if not good:
-        r.bad(fm, q, norm(wr), "the value stored is not AMO_FUNS[<type>](old, data)", wr.lineno)
-    else:
-        key = val.func.slice
-        kn = names_in(key) - {'int'}
-        if kn != {p_amo}:
-            r.bad(fm, q, norm(val.func), f"the operation is not selected by the `{p_amo}` argument", wr.lineno)
-        elif [norm(a) for a in val.args] == [old, p_data]:
-            r.ok(fm, q, norm(val))
+            def h_read(*a, ev_log=ev_log):
+                if len(a) == 3:
+                    a = a[1:]                       # helper called directly on the bytearray
+                tok = ('old', sum(1 for e in ev_log if e[0] == 'read'))
+                ev_log.append(('read', int(a[0]), int(a[1]), tok))
+                return tok
+
+            def h_write(*a, ev_log=ev_log):
+                if len(a) == 4:
+                    a = a[1:]
+                ev_log.append(('write', int(a[0]), int(a[1]), a[2]))
+
+            def mk(c):
+                def fn(m_, a_, ev_log=ev_log, c=c):
+                    ev_log.append(('f', c, m_, a_))
+                    return ('new', c, m_, a_)
+                return fn
+            env = {'AMO_FUNS': {c: mk(c) for c in table}, f'{me}.mem': ImgMem()}
+            funcs = dict(BASE_FUNCS, **{f'{me}.read': h_read, f'{me}.write': h_write, 'read_bytearray_bits': h_read,
+                                        'write_bytearray_bits': h_write})
+            it = FnInterp(env, funcs=funcs)
+            r.evaluations += 1
+            try:
+                ret = it.apply(Closure(f, env), [None, BV(4, code), BV(16, 1000), nb, DATA])
+                err = None
+            except Raised as ex:
+                ret, err = None, ex.what
+            ctx = f"{name}, {nb} byte(s)"
+            reads = [e for e in ev_log if e[0] == 'read']
+            writes = [e for e in ev_log if e[0] == 'write']
+            fs = [e for e in ev_log if e[0] == 'f']
+            if err is not None:
+                problems.setdefault('runs', f"{ctx}: raises {err}")
+                continue
+            if len(reads) != 1 or len(writes) != 1:
+                problems.setdefault('once', f"{ctx}: {len(reads)} read(s) and {len(writes)} write(s) of the memory; an atomic "
+                                            f"operation is one read of the old value and one write of the result")
+                if not reads or not writes:
+                    continue
+            if reads[0][1:3] != (1000, nb) or ev_log.index(reads[0]) > ev_log.index(writes[0]):
+                problems.setdefault('read', f"{ctx}: the old value must be read from (addr, nbytes) before the store; seen "
+                                            f"{[e[:3] for e in ev_log if e[0] != 'f']}")
+            if writes[0][1:3] != (1000, nb):
+                problems.setdefault('write', f"{ctx}: the result is written to {writes[0][1:3]}, must go back to the bytes read "
+                                             f"(1000, {nb})")
+            if len(fs) != 1 or fs[0][1] != code:
+                problems.setdefault('select', f"{ctx}: the function applied is {'none' if not fs else 'the one of code ' + str(fs[0][1])}, "
+                                              f"must be AMO_FUNS[{code}]")
+            elif fs[0][2:] != (reads[0][3], DATA):
+                problems.setdefault('operands', f"{ctx}: the function is applied to {fs[0][2:]}; it must be applied to (old memory "
+                                                f"value, request data) -- with swapped/other operands SWAP stores the old value")
+            elif writes[0][3] != ('new', code, reads[0][3], DATA):
+                problems.setdefault('stored', f"{ctx}: the value stored is {writes[0][3]!r}, must be f(old, data)")
+            if ret != reads[0][3]:
+                problems.setdefault('returns', f"{ctx}: returns {ret!r}; an atomic operation returns the OLD memory value (the "
+                                               f"first value read)")
+    for key, cons in (('runs', 'amo() evaluates'), ('once', 'one read, one write'), ('read', 'reads old value at (addr, nbytes) first'),
+                      ('write', 'writes back to (addr, nbytes)'), ('select', 'function selected by the amo code'),
+                      ('operands', 'f(old, data)'), ('stored', 'stores f(old, data)'), ('returns', 'returns the old value')):
+        if 'runs' in problems and key != 'runs':
+            continue
+        if key in problems:
+            r.bad(fm, q, cons, problems[key], f.lineno)
         else:
-            r.bad(fm, q, norm(val), f"the function must be applied to (old memory value, request data) = ({old}, {p_data}); "
-                  f"with swapped/other operands SWAP stores the old value and MIN/MAX ties resolve wrongly", wr.lineno)
-    if ret.value is not None and norm(ret.value) == old and body.index(stmt_of(ret)) > body.index(rd_stmt):
-        r.ok(fm, q, norm(ret))
-    else:
-        r.bad(fm, q, norm(ret), f"an atomic operation returns the OLD memory value (`{old}`)", ret.lineno)
+            r.ok(fm, q, cons)
     r.require_floor(12)
     return r
 
@@ -422,15 +431,16 @@ def _ctx(repo, rel, cls):
 
 def _chain(c, block):
     """the if/elif chain on req.type_ in the statement list `block`: [(test, body)], else-body, the If node"""
+    defs = _up_defs(c)
     tops = [st for st in block if isinstance(st, ast.If) and any(
-        isinstance(n, ast.Attribute) and n.attr == 'type_' and norm(n.value) == c.req for n in ast.walk(st.test))]
+        isinstance(n, ast.Attribute) and n.attr == 'type_' and norm(n.value) == c.req for n in ast.walk(_expand(st.test, defs)))]
     if len(tops) != 1:
         raise AnalysisError(f"{c.q}: expected one if/elif chain on {c.req}.type_, found {len(tops)}")
     node = tops[0]
     arms = []
     cur = node
     while True:
-        arms.append((cur.test, cur.body))
+        arms.append((_expand(cur.test, defs), cur.body))
         if len(cur.orelse) == 1 and isinstance(cur.orelse[0], ast.If):
             cur = cur.orelse[0]
         else:
@@ -483,6 +493,15 @@ def _len_eval(c, pre, expr, D, lv):
             if e.attr == 'data_nbits' and isinstance(e.value, ast.Subscript) and isinstance(e.value.slice, ast.Constant):
                 return D * 2      # the width of some OTHER, fixed port: in general different from this port's width
         return NotImplemented
+    # backward slice: only the statements that influence `expr` are executed (unrelated helper locals are skipped)
+    need = {n.id for n in ast.walk(expr) if isinstance(n, ast.Name)}
+    keep = []
+    for st in reversed(list(pre)):
+        stored = {n.id for n in ast.walk(st) if isinstance(n, ast.Name) and isinstance(n.ctx, ast.Store)}
+        if stored & need:
+            keep.append(st)
+            need |= {n.id for n in ast.walk(st) if isinstance(n, ast.Name) and isinstance(n.ctx, ast.Load)}
+    pre = list(reversed(keep))
     it = Interp({}, funcs=BASE_FUNCS, leaf=leaf)
     # closure variables of the update block: resolve them from the enclosing construct()
     try:
@@ -516,6 +535,40 @@ def _strip_int(e):
     while isinstance(e, ast.Call) and norm(e.func) == 'int' and len(e.args) == 1:
         e = e.args[0]
     return e
+
+
+def _local_defs(scope, exclude=()):
+    """helper locals: names assigned exactly once inside `scope`, by a plain `name = expr`"""
+    cnt, val = {}, {}
+    for n in ast.walk(scope):
+        if isinstance(n, ast.Name) and isinstance(n.ctx, ast.Store):
+            cnt[n.id] = cnt.get(n.id, 0) + 1
+        if isinstance(n, ast.Assign) and len(n.targets) == 1 and isinstance(n.targets[0], ast.Name):
+            val[n.targets[0].id] = n.value
+    return {k: v for k, v in val.items() if cnt.get(k) == 1 and k not in exclude}
+
+
+def _deref(e, defs):
+    """the defining expression (original node) of a helper local, else e"""
+    seen = set()
+    while isinstance(e, ast.Name) and e.id in defs and e.id not in seen:
+        seen.add(e.id)
+        e = defs[e.id]
+    return e
+
+
+def _expand(e, defs):
+    """copy of e with helper locals replaced by their defining expressions"""
+    for _ in range(4):
+        if not (names_in(e) & set(defs)):
+            break
+        e = subst(e, defs)
+    return e
+
+
+def _up_defs(c):
+    rv = c.sinks[0][2].id if len(c.sinks) == 1 and isinstance(c.sinks[0][2], ast.Name) else None
+    return _local_defs(c.loop, {c.req, c.i, rv})
 
 
 def rule_dispatch(repo):
@@ -573,7 +626,10 @@ def rule_dispatch(repo):
                 continue
             roles = {'read': ['addr', 'n'], 'write': ['addr', 'n', 'data'], 'amo': ['type', 'addr', 'n', 'data']}[meth]
             problems = []
+            defs = _up_defs(c)
             for role, a in zip(roles, args):
+                if role != 'n':
+                    a = _deref(_strip_int(_deref(a, defs)), defs)
                 if role == 'addr':
                     if norm(_strip_int(a)) != f'{c.req}.addr':
                         problems.append(f"address argument is {norm(a)}, must be {c.req}.addr")
@@ -621,38 +677,62 @@ def rule_dispatch(repo):
                       call.lineno)
             else:
                 r.ok(c.m, c.q, cons)
-    # 3. MagicMemoryFL forwards positionally to the byte helpers on the one bytearray
-    stores = [n for n in ast.walk(fm.get_class('MagicMemoryFL')) if isinstance(n, ast.Assign) and
-              any(isinstance(t, ast.Attribute) and isinstance(n.value, ast.Call) and norm(n.value.func) == 'bytearray' for t in n.targets)]
+    # 3. MagicMemoryFL forwards (the one bytearray, addr, nbytes[, data]) to the byte helpers: the methods are evaluated with
+    #    a recording stand-in for the helper, for every byte count 1..8 at two alignments
+    stores = [n for n in ast.walk(fm.get_class('MagicMemoryFL')) if isinstance(n, ast.Assign) and isinstance(n.value, ast.Call)
+              and norm(n.value.func) == 'bytearray' and len(n.targets) == 1 and isinstance(n.targets[0], ast.Attribute)]
     if len(stores) != 1:
         raise AnalysisError("MagicMemoryFL: expected exactly one bytearray backing store")
-    store = norm(stores[0].targets[0])
-    me = stores[0].targets[0].value.id if isinstance(stores[0].targets[0].value, ast.Name) else None
+    store_attr = stores[0].targets[0].attr
     for meth, helper in (('read', 'read_bytearray_bits'), ('write', 'write_bytearray_bits')):
         f = fm.get_func(f'MagicMemoryFL.{meth}')
         ps = [a.arg for a in f.args.args]
-        calls = [n for n in walk_no_nested(f) if isinstance(n, ast.Call) and norm(n.func) == helper]
-        want = [f'{ps[0]}.{store.split(".", 1)[1]}'] + ps[1:]
-        reassigned = sorted({n.id for n in walk_no_nested(f) if isinstance(n, ast.Name) and isinstance(n.ctx, ast.Store) and n.id in ps})
-        if reassigned or (len(calls) == 1 and parent(stmt_of(calls[0])) is not f):
-            r.bad(fm, f'MagicMemoryFL.{meth}', norm(calls[0])[:80] if calls else 'no helper call',
-                  f"address / byte count / data must reach {helper} unchanged and unconditionally"
-                  f"{' (reassigned: ' + ', '.join(reassigned) + ')' if reassigned else ''}", f.lineno)
+        q = f'MagicMemoryFL.{meth}'
+        rr = repo.resolve(fm, helper)
+        if rr is None or rr[0].rel != BYTES:
+            r.bad(fm, q, helper, f"{helper} does not resolve to {BYTES}", f.lineno)
             continue
-        if len(calls) == 1 and [norm(a) for a in calls[0].args] == want and not calls[0].keywords:
-            if meth == 'read':
-                rets = [n for n in walk_no_nested(f) if isinstance(n, ast.Return)]
-                if not (len(rets) == 1 and rets[0].value is calls[0]):
-                    r.bad(fm, f'MagicMemoryFL.{meth}', norm(rets), "read must return the helper's value unchanged", f.lineno)
-                    continue
-            rr = repo.resolve(fm, helper)
-            if rr is None or rr[0].rel != BYTES:
-                r.bad(fm, f'MagicMemoryFL.{meth}', helper, f"{helper} does not resolve to {BYTES}", f.lineno)
-                continue
-            r.ok(fm, f'MagicMemoryFL.{meth}', norm(calls[0]))
+        bad = None
+        for base, nb in itertools.product((1000, 1003), range(1, 9)):
+            img = ImgMem()
+            rec = []
+            RET = ('value-read',)
+            DATA = SB([f'D{k}' for k in range(nb)])
+
+            def hook(*args, rec=rec, RET=RET):
+                rec.append(args)
+                return RET
+            env = {f'{ps[0]}.{store_attr}': img}
+            it = FnInterp(env, funcs=dict(BASE_FUNCS, **{helper: hook}))
+            r.evaluations += 1
+            try:
+                got = it.apply(Closure(f, env), [None, BV(16, base), nb] + ([DATA] if meth == 'write' else []))
+                err = None
+            except Raised as ex:
+                got, err = None, ex.what
+            if err is not None:
+                bad = f"addr={base}, nbytes={nb}: raises {err}"
+            elif len(rec) != 1:
+                bad = f"addr={base}, nbytes={nb}: {helper} is called {len(rec)} times"
+            else:
+                args = rec[0]
+                want_n = 3 if meth == 'read' else 4
+                if len(args) != want_n or args[0] is not img:
+                    bad = f"addr={base}, nbytes={nb}: {helper} is not applied to the backing bytearray with {want_n} arguments"
+                elif not isinstance(args[1], (int, BV)) or int(args[1]) != base or isinstance(args[2], bool) \
+                        or not isinstance(args[2], (int, BV)) or int(args[2]) != nb:
+                    bad = f"addr={base}, nbytes={nb}: {helper} receives (addr, nbytes) = ({args[1]!r}, {args[2]!r})"
+                elif meth == 'write' and not (isinstance(args[3], SB) and args[3] == DATA):
+                    bad = f"addr={base}, nbytes={nb}: {helper} receives other data than the caller's"
+                elif meth == 'read' and got is not RET:
+                    bad = f"addr={base}, nbytes={nb}: read does not return the helper's value unchanged"
+            if bad:
+                break
+        cons = f'{helper}({ps[0]}.{store_attr}, {", ".join(ps[1:])})'
+        if bad:
+            r.bad(fm, q, cons, bad + f" -- address / byte count / data must reach {helper} unchanged", f.lineno)
         else:
-            r.bad(fm, f'MagicMemoryFL.{meth}', norm(calls) if calls else 'no helper call',
-                  f"must forward to {helper}({', '.join(want)})", f.lineno)
+            r.ok(fm, q, cons)
     r.require_floor(26)
     return r
 
@@ -763,6 +843,8 @@ def rule_echo(repo):
             if fa is None or set(fa) != set(order):
                 r.bad(c.m, c.q, cons, f"constructor arguments do not cover the fields ({', '.join(order)})", st.lineno)
                 continue
+            defs = _up_defs(c)
+            fa = {k2: _deref(v2, defs) for k2, v2 in fa.items()}
             here = routed.get(k, [])
             if not here:
                 r.ok(c.m, c.q, cons, nontrivial=False, note='branch unreachable for every named type code')
@@ -791,8 +873,8 @@ def rule_echo(repo):
                 if 'read' in kinds:
                     inner = d
                     if isinstance(d, ast.Call) and norm(d.func) == 'zext' and len(d.args) == 2 and not d.keywords:
-                        inner = d.args[0]
-                        if not (isinstance(d.args[1], ast.Attribute) and d.args[1].attr == 'data_nbits'):
+                        inner = _deref(d.args[0], defs)
+                        if not (isinstance(_deref(d.args[1], defs), ast.Attribute) and _deref(d.args[1], defs).attr == 'data_nbits'):
                             problems.append(f"read data is extended to {norm(d.args[1])}, must be the data width")
                     if not (isinstance(inner, ast.Call) and any(inner is x for x in calls) and inner.func.attr == 'read'):
                         problems.append(f"read data is {norm(d)[:60]}, must be the zero-extended value read from memory "
@@ -983,7 +1065,9 @@ def rule_pairing(repo):
                 if id(st) in seen:
                     continue
                 seen.add(id(st))
-                gs = [g for g in guards_of(st, stop=c.loop) if g.kind in ('if', 'exit', 'assert')]
+                defs = _up_defs(c)
+                gs = [Guard(_expand(g.test, defs), g.polarity, g.kind, g.node)
+                      for g in guards_of(st, stop=c.loop) if g.kind in ('if', 'exit', 'assert')]
                 cex = _implication(gs, c.vkeys + [rkeys], r)
                 cons = f'{what}: {norm(st)[:60]}'
                 if cex is None:
@@ -1424,7 +1508,8 @@ def _slot_empty_at(node, pipe, k, f, r):
             if last is not None and isinstance(last.value, ast.Constant) and last.value.value is None:
                 return True
     flags = _slot_flags(f, pipe, k)
-    gs = [g for g in guards_of(st) if g.kind in ('if', 'exit', 'assert')]
+    defs = _local_defs(f)
+    gs = [Guard(_expand(g.test, defs), g.polarity, g.kind, g.node) for g in guards_of(st) if g.kind in ('if', 'exit', 'assert')]
     # a guard is usable only if the pipe is not mutated between the guard and the node (same tick, structured code)
     atoms = set()
     for g in gs:
@@ -1529,7 +1614,7 @@ def rule_purity(repo):
                     for t in tg:
                         if isinstance(t, ast.Subscript) and norm(t.value) in pipes:
                             k = _const_int(t.slice)
-                            v = n.value
+                            v = _deref(n.value, _local_defs(f)) if isinstance(n, ast.Assign) else n.value
                             cons = norm(n)
                             if isinstance(n, ast.AugAssign) or k not in (0, -1):
                                 r.bad(m, q, cons, "a delay pipe is written only at slot 0 (insert) and slot -1 (remove)", n.lineno)
@@ -1866,6 +1951,18 @@ EQUIV = [
           s.send( msg )
           s.pipeline[-1] = None
           s.pipeline.rotate()"""),
+    _m('write-mem-helper-local', FL, "    assert len(s.mem) > (addr + len(data))\n    s.mem[ addr : addr + len(data) ] = data",
+       "    end = addr + len(data)\n    assert len(s.mem) > end\n    s.mem[ addr : end ] = data"),
+    _m('read-mem-helper-locals', FL, "    assert len(s.mem) > (addr + size)\n    return s.mem[ addr : addr + size ]",
+       "    stop = addr + size\n    assert stop < len(s.mem)\n    img = s.mem[ addr : stop ]\n    return img"),
+    _m('fl-read-helper-locals', FL, "    return read_bytearray_bits( s.mem, addr, nbytes )", "    a = int(addr)\n    value = read_bytearray_bits( s.mem, a, nbytes )\n    return value"),
+    _m('cl-up-mem-helper-locals', CL, "          req = s.req_qs[i].deq()\n          len_ = int(req.len)", "          req = s.req_qs[i].deq()\n          opq = req.opaque\n          ty = req.type_\n          len_ = int(req.len)"),
+    _m('cl-amo-old-value-local', CL, _AMO_TAIL_CL, "            old = s.mem.amo( req.type_, req.addr, len_, req.data )\n            resp = resp_classes[i]( req.type_, req.opaque, 0, req.len, old )"),
+    _m('cl-guard-helper-local', CL, "        if s.req_qs[i].deq.rdy() and s.resp_qs[i].enq.rdy():\n", "        can_go = s.req_qs[i].deq.rdy() and s.resp_qs[i].enq.rdy()\n        if can_go:\n"),
+    _m('stream-type-local', STREAM, "          if   req.type_ == MemMsgType.READ:", "          ty = req.type_\n          if   ty == MemMsgType.READ:"),
+    _m('deq-pipe-copy-local', DELAY, "    s.pipeline[0] = clone_deepcopy(msg)\n\n  @non_blocking( lambda s: s.pipeline[-1] is not None )", "    copy = clone_deepcopy(msg)\n    s.pipeline[0] = copy\n\n  @non_blocking( lambda s: s.pipeline[-1] is not None )"),
+    _m('inelastic-valid-branches-flipped', STREAM, "      if s.delay_pipe[-1] is None:\n        s.send.val <<= 0\n      else:\n        s.send.val <<= 1\n        s.send.msg <<= s.delay_pipe[-1]",
+       "      if s.delay_pipe[-1] is not None:\n        s.send.val <<= 1\n        s.send.msg <<= s.delay_pipe[-1]\n      else:\n        s.send.val <<= 0"),
     _m('stall-rdy-conjuncts-swapped', STALL, "lambda s: s.stall_rgen.random() > s.stall_prob and s.send.rdy()", "lambda s: s.send.rdy() and s.stall_rgen.random() > s.stall_prob"),
 ]
 
